@@ -34,6 +34,7 @@ type spec struct {
 	lean           string   // Lean def name
 	tracked        []string // shared expressions (keys) whose reads/writes are recorded
 	calls          []string // callee names recorded as .call
+	alias          bool     // a local variable assigned from a tracked slice aliases it (same backing array)
 }
 
 func key(x ast.Expr) string {
@@ -79,8 +80,9 @@ func hasSuffixName(k string, names []string) bool {
 }
 
 type walker struct {
-	sp  *spec
-	out []ev
+	sp    *spec
+	out   []ev
+	alias map[string]string // local identifier -> tracked name it was assigned from (spec.alias only)
 }
 
 func (w *walker) emit(kind, name string) { w.out = append(w.out, ev{kind, name}) }
@@ -88,6 +90,11 @@ func (w *walker) emit(kind, name string) { w.out = append(w.out, ev{kind, name})
 // trackedOf returns the tracked name an expression key falls under ("" if none).
 func (w *walker) trackedOf(k string) string {
 	best := ""
+	for a, t := range w.alias {
+		if k == a || strings.HasPrefix(k, a+"[") || strings.HasPrefix(k, a+".") {
+			return t
+		}
+	}
 	for _, t := range w.sp.tracked {
 		if k == t || strings.HasPrefix(k, t+"[") || strings.HasPrefix(k, t+".") {
 			if len(t) > len(best) {
@@ -279,6 +286,28 @@ func (w *walker) stmt(s ast.Stmt) {
 			}
 			w.lhs(l)
 		}
+		if w.sp.alias && len(st.Lhs) == len(st.Rhs) && (st.Tok == token.ASSIGN || st.Tok == token.DEFINE) {
+			// `x := shared` / `x := shared[a:b]` copies the slice header only: x aliases the shared backing array
+			for i, l := range st.Lhs {
+				id, ok := l.(*ast.Ident)
+				if !ok || id.Name == "_" {
+					continue
+				}
+				rk := key(st.Rhs[i])
+				if _, isCall := st.Rhs[i].(*ast.CallExpr); isCall || rk == "" {
+					delete(w.alias, id.Name) // fresh value (make, append, …)
+					continue
+				}
+				if t := w.trackedOf(rk); t != "" && (rk == t || w.alias[rk] == t) {
+					if w.alias == nil {
+						w.alias = map[string]string{}
+					}
+					if id.Name != t {
+						w.alias[id.Name] = t
+					}
+				}
+			}
+		}
 	case *ast.IncDecStmt:
 		w.expr(st.X)
 		w.lhs(st.X)
@@ -419,40 +448,40 @@ var protoCalls = []string{"abortWriting", "commit", "del", "save", "Save", "Hurr
 
 var specs = []spec{
 	{"lib/chain/chain_accept.go", "Chain", "commitTxs", "commitTxs",
-		[]string{"blUnsp", "t", "ver_err_cnt", "tx.Spent_outputs", "tx.TxOut", "wait4compl", "changes.DeledTxs", "changes.UndoData", "changes.AddList", "spent_map"}, protoCalls},
-	{"lib/chain/chain_accept.go", "Chain", "CommitBlock", "commitBlock", []string{}, protoCalls},
+		[]string{"blUnsp", "t", "ver_err_cnt", "tx.Spent_outputs", "tx.TxOut", "wait4compl", "changes.DeledTxs", "changes.UndoData", "changes.AddList", "spent_map"}, protoCalls, false},
+	{"lib/chain/chain_accept.go", "Chain", "CommitBlock", "commitBlock", []string{}, protoCalls, false},
 	{"lib/utxo/unspent_db.go", "UnspentDB", "save", "save",
-		[]string{"db.HashMap", "db.LastBlockHeight", "db.LastBlockHash", "db.CurrentHeightOnDisk", "data_channel", "exit_channel"}, protoCalls},
+		[]string{"db.HashMap", "db.LastBlockHeight", "db.LastBlockHash", "db.CurrentHeightOnDisk", "data_channel", "exit_channel"}, protoCalls, false},
 	{"lib/utxo/unspent_db.go", "UnspentDB", "CommitBlockTxs", "commitBlockTxs",
-		[]string{"db.HashMap", "db.LastBlockHeight", "db.LastBlockHash", "db.undo_dir_created", "changes.UndoData"}, protoCalls},
+		[]string{"db.HashMap", "db.LastBlockHeight", "db.LastBlockHash", "db.undo_dir_created", "changes.UndoData"}, protoCalls, false},
 	{"lib/utxo/unspent_db.go", "UnspentDB", "UndoBlockTxs", "undoBlockTxs",
-		[]string{"db.HashMap", "db.LastBlockHeight", "db.LastBlockHash", "db.DeletedRecords"}, protoCalls},
+		[]string{"db.HashMap", "db.LastBlockHeight", "db.LastBlockHash", "db.DeletedRecords"}, protoCalls, false},
 	{"lib/utxo/unspent_db.go", "UnspentDB", "commit", "commit",
-		[]string{"db.HashMap", "changes.DeledTxs", "changes.AddList", "thelist"}, protoCalls},
-	{"lib/utxo/unspent_db.go", "UnspentDB", "del", "del", []string{"db.HashMap", "db.DeletedRecords"}, protoCalls},
-	{"lib/utxo/unspent_db.go", "UnspentDB", "abortWriting", "abortWriting", []string{}, protoCalls},
-	{"lib/utxo/unspent_db.go", "UnspentDB", "AbortWriting", "abortWritingPub", []string{}, protoCalls},
-	{"lib/utxo/unspent_db.go", "UnspentDB", "Save", "savePub", []string{}, protoCalls},
-	{"lib/utxo/unspent_db.go", "UnspentDB", "Idle", "idle", []string{"db.LastBlockHeight", "db.CurrentHeightOnDisk"}, protoCalls},
-	{"lib/utxo/unspent_db.go", "UnspentDB", "HurryUp", "hurryUp", []string{}, protoCalls},
-	{"lib/utxo/unspent_db.go", "UnspentDB", "Close", "close", []string{}, protoCalls},
-	{"lib/utxo/unspent_db.go", "UnspentDB", "UnspentGet", "unspentGet", []string{"db.HashMap"}, protoCalls},
-	{"lib/utxo/unspent_db.go", "UnspentDB", "Relocate", "relocate", []string{"db.HashMap"}, protoCalls},
-	{"lib/utxo/unspent_db.go", "UnspentDB", "DefragMap", "defragMap", []string{"db.HashMap", "db.DeletedRecords"}, protoCalls},
+		[]string{"db.HashMap", "changes.DeledTxs", "changes.AddList", "thelist"}, protoCalls, false},
+	{"lib/utxo/unspent_db.go", "UnspentDB", "del", "del", []string{"db.HashMap", "db.DeletedRecords"}, protoCalls, false},
+	{"lib/utxo/unspent_db.go", "UnspentDB", "abortWriting", "abortWriting", []string{}, protoCalls, false},
+	{"lib/utxo/unspent_db.go", "UnspentDB", "AbortWriting", "abortWritingPub", []string{}, protoCalls, false},
+	{"lib/utxo/unspent_db.go", "UnspentDB", "Save", "savePub", []string{}, protoCalls, false},
+	{"lib/utxo/unspent_db.go", "UnspentDB", "Idle", "idle", []string{"db.LastBlockHeight", "db.CurrentHeightOnDisk"}, protoCalls, false},
+	{"lib/utxo/unspent_db.go", "UnspentDB", "HurryUp", "hurryUp", []string{}, protoCalls, false},
+	{"lib/utxo/unspent_db.go", "UnspentDB", "Close", "close", []string{}, protoCalls, false},
+	{"lib/utxo/unspent_db.go", "UnspentDB", "UnspentGet", "unspentGet", []string{"db.HashMap"}, protoCalls, false},
+	{"lib/utxo/unspent_db.go", "UnspentDB", "Relocate", "relocate", []string{"db.HashMap"}, protoCalls, false},
+	{"lib/utxo/unspent_db.go", "UnspentDB", "DefragMap", "defragMap", []string{"db.HashMap", "db.DeletedRecords"}, protoCalls, false},
 	{"lib/chain/blockdb.go", "BlockDB", "writeOne", "writeOne",
-		[]string{"rec.ipos", "rec.blen", "rec.fpos", "rec.datfileidx", "rec.compressed", "rec.snappied", "rec.trusted", "db.blockIndex", "db.datToWrite", "db.maxidxfilepos", "db.maxdatfilepos", "db.maxdatfileidx", "db.blockdata"}, protoCalls},
+		[]string{"rec.ipos", "rec.blen", "rec.fpos", "rec.datfileidx", "rec.compressed", "rec.snappied", "rec.trusted", "db.blockIndex", "db.datToWrite", "db.maxidxfilepos", "db.maxdatfilepos", "db.maxdatfileidx", "db.blockdata"}, protoCalls, false},
 	{"lib/chain/blockdb.go", "BlockDB", "BlockGetInternal", "blockGetInternal",
-		[]string{"rec.ipos", "rec.blen", "rec.fpos", "rec.datfileidx", "rec.compressed", "rec.snappied", "rec.trusted", "rec.olen", "db.blockIndex", "db.cache"}, protoCalls},
+		[]string{"rec.ipos", "rec.blen", "rec.fpos", "rec.datfileidx", "rec.compressed", "rec.snappied", "rec.trusted", "rec.olen", "db.blockIndex", "db.cache"}, protoCalls, false},
 	{"lib/chain/blockdb.go", "BlockDB", "BlockAdd", "blockAdd",
-		[]string{"rec.ipos", "rec.trusted", "db.blockIndex", "db.cache", "db.datToWrite"}, protoCalls},
-	{"lib/chain/blockdb.go", "BlockDB", "addToCache", "addToCache", []string{"rec.ipos", "db.blockIndex", "db.cache"}, protoCalls},
-	{"lib/chain/blockdb.go", "BlockDB", "BlockInvalid", "blockInvalid", []string{"cur.ipos", "cur.trusted", "db.blockIndex", "db.cache"}, protoCalls},
-	{"lib/chain/blockdb.go", "BlockDB", "setBlockFlag", "setBlockFlag", []string{"cur.ipos", "cur.trusted", "db.blockindx"}, protoCalls},
+		[]string{"rec.ipos", "rec.trusted", "db.blockIndex", "db.cache", "db.datToWrite"}, protoCalls, false},
+	{"lib/chain/blockdb.go", "BlockDB", "addToCache", "addToCache", []string{"rec.ipos", "db.blockIndex", "db.cache"}, protoCalls, false},
+	{"lib/chain/blockdb.go", "BlockDB", "BlockInvalid", "blockInvalid", []string{"cur.ipos", "cur.trusted", "db.blockIndex", "db.cache"}, protoCalls, false},
+	{"lib/chain/blockdb.go", "BlockDB", "setBlockFlag", "setBlockFlag", []string{"cur.ipos", "cur.trusted", "db.blockindx"}, protoCalls, false},
 	{"lib/btc/block.go", "Block", "BuildTxListExt", "buildTxListExt",
-		[]string{"block_weight", "bl.Txs", "bl.BlockWeight", "bl.TotalInputs", "tx.Hash", "tx.Size", "tx.wTxID"}, protoCalls},
-	{"lib/btc/tx.go", "Tx", "WitnessSigHash", "witnessSigHash", []string{"tx.hashPrevouts", "tx.hashSequence", "tx.hashOutputs"}, protoCalls},
-	{"lib/btc/taproot.go", "Tx", "TaprootSigHash", "taprootSigHash", []string{"tx.tapSingleHashes", "tx.tapOutSingleHash", "tx.Spent_outputs"}, protoCalls},
-	{"lib/utxo/unspent_recc.go", "", "SerializeC", "serializeC", []string{"comp_val", "comp_scr"}, protoCalls},
+		[]string{"block_weight", "bl.Txs", "bl.BlockWeight", "bl.TotalInputs", "tx.Hash", "tx.Size", "tx.wTxID"}, protoCalls, false},
+	{"lib/btc/tx.go", "Tx", "WitnessSigHash", "witnessSigHash", []string{"tx.hashPrevouts", "tx.hashSequence", "tx.hashOutputs"}, protoCalls, false},
+	{"lib/btc/taproot.go", "Tx", "TaprootSigHash", "taprootSigHash", []string{"tx.tapSingleHashes", "tx.tapOutSingleHash", "tx.Spent_outputs"}, protoCalls, false},
+	{"lib/utxo/unspent_recc.go", "", "SerializeC", "serializeC", []string{"comp_val", "comp_scr"}, protoCalls, true},
 }
 
 // names the model refers to symbolically; the generator fails when one of them no longer occurs.
@@ -521,6 +550,53 @@ func main() {
 			return true
 		})
 	}
+	// capacity of save's data_channel: `data_channel := make(chan []byte, <const or literal>)`
+	dataCap := -1
+	{
+		fd, _ := files["lib/utxo/unspent_db.go"].Func("UnspentDB", "save")
+		consts := map[string]string{}
+		ast.Inspect(fd.Body, func(n ast.Node) bool {
+			if gd, ok := n.(*ast.GenDecl); ok && gd.Tok == token.CONST {
+				for _, sp := range gd.Specs {
+					vs := sp.(*ast.ValueSpec)
+					for i, nm := range vs.Names {
+						if i < len(vs.Values) {
+							if bl, ok := vs.Values[i].(*ast.BasicLit); ok && bl.Kind == token.INT {
+								consts[nm.Name] = bl.Value
+							}
+						}
+					}
+				}
+			}
+			as, ok := n.(*ast.AssignStmt)
+			if !ok || len(as.Lhs) != 1 || len(as.Rhs) != 1 || key(as.Lhs[0]) != "data_channel" {
+				return true
+			}
+			c, ok := as.Rhs[0].(*ast.CallExpr)
+			if !ok || key(c.Fun) != "make" {
+				return true
+			}
+			v := "0" // make(chan T) is unbuffered
+			if len(c.Args) == 2 {
+				switch a := c.Args[1].(type) {
+				case *ast.BasicLit:
+					v = a.Value
+				case *ast.Ident:
+					v = consts[a.Name]
+				default:
+					v = ""
+				}
+			}
+			var n64 int64
+			if _, err := fmt.Sscan(v, &n64); err == nil && n64 >= 0 && n64 < 1<<30 {
+				dataCap = int(n64)
+			}
+			return true
+		})
+		if dataCap < 0 {
+			die(fmt.Errorf("UnspentDB.save: `data_channel := make(chan []byte, N)` with a literal or locally declared constant N not found"))
+		}
+	}
 	var nl []string
 	for n := range names {
 		nl = append(nl, n)
@@ -572,6 +648,8 @@ func main() {
 		b.WriteString("]\n\n")
 	}
 	fmt.Fprintf(&b, "/-- `blUnsp[tx.Hash.Hash] = slices.Clone(tx.TxOut)` in commitTxs -/\ndef blUnspIsClone : Bool := %v\n\n", cloned)
+	facts++
+	fmt.Fprintf(&b, "/-- capacity of `data_channel` in UnspentDB.save -/\ndef dataChanCap : Nat := %d\n\n", dataCap)
 	facts++
 	b.WriteString("def all : List (String × List Ev) := [\n")
 	for i, fn := range order {
